@@ -42,13 +42,24 @@ class OperatorDict(Mapping):
     def __len__(self):
         return len(self.operator_dict)
 
+    def _store_in_numspace(self, func):
+        """ Store func in the numspace under a name that identifies this function only. """
+        numspace = self.algebra.numspace
+        name, n = func.__name__, len(numspace)
+        while func.__name__ in numspace:
+            # Generated names only encode which blades are present (or the name of the registered function),
+            # not their order, so different functions can be generated with the same name.
+            func.__name__ = f'{name}_{n}'
+            n += 1
+        numspace[func.__name__] = self.algebra.wrapper(func) if self.algebra.wrapper else func
+
     def __getitem__(self, keys_in: Tuple[Tuple[int]]):
         if keys_in not in self.operator_dict:
             # Make symbolic multivectors for each set of keys and generate the code.
             mvs = [self.algebra.multivector(name=name, keys=keys, symbolcls=self.codegen_symbolcls)
                    for name, keys in zip(string.ascii_lowercase, keys_in)]
             keys_out, func = do_codegen(self.codegen, *mvs)
-            self.algebra.numspace[func.__name__] = self.algebra.wrapper(func) if self.algebra.wrapper else func
+            self._store_in_numspace(func)
             self.operator_dict[keys_in] = (keys_out, func)
         return self.operator_dict[keys_in]
 
@@ -132,7 +143,7 @@ class UnaryOperatorDict(OperatorDict):
         if keys_in not in self.operator_dict:
             mv = self.algebra.multivector(name='a', keys=keys_in, symbolcls=self.codegen_symbolcls)
             keys_out, func = do_codegen(self.codegen, mv)
-            self.algebra.numspace[func.__name__] = self.algebra.wrapper(func) if self.algebra.wrapper else func
+            self._store_in_numspace(func)
             self.operator_dict[keys_in] = (keys_out, func)
         return self.operator_dict[keys_in]
 
@@ -158,7 +169,7 @@ class Registry(OperatorDict):
             tapes = [TapeRecorder(algebra=self.algebra, expr=name, keys=keys)
                      for name, keys in zip(string.ascii_lowercase, keys_in)]
             keys_out, func = do_compile(self.codegen, *tapes)
-            self.algebra.numspace[func.__name__] = self.algebra.wrapper(func) if self.algebra.wrapper else func
+            self._store_in_numspace(func)
             self.operator_dict[keys_in] = (keys_out, func)
         return self.operator_dict[keys_in]
 
